@@ -92,6 +92,11 @@ class Call:
         return 'returned'
 
 
+async def _grace(iterations: int = 12):
+    for _ in range(iterations):
+        await asyncio.sleep(0)
+
+
 class World:
 
     def __init__(self, plan: dict, prop: str = 'X'):
@@ -246,7 +251,15 @@ class World:
         """Run the scenario to completion; SimStall/SimBudget propagate as harness errors."""
         with warnings.catch_warnings():
             warnings.simplefilter('ignore')
-            return self.loop.run_until_complete(main_coro)
+            result = self.loop.run_until_complete(main_coro)
+            # a few more iterations in the same instant: whoever awaits a task that ended in the very last iteration
+            # gets to look at its result before unretrieved task exceptions are collected
+            try:
+                self.loop.run_until_complete(_grace())
+            except (SimStall, SimBudget, RuntimeError):
+                pass
+            self.loop.scan_task_deaths()
+            return result
 
     def settle(self, seconds: float):
         return asyncio.sleep(seconds)
